@@ -283,3 +283,67 @@ class ModelStub:
 
     def spreading_pressure(self, p):
         return self._ap(self.S, p, 'spreading_pressure')
+
+
+# ---------------------------------------------------------------------------------------------
+# scipy.optimize / scipy.integrate contract stubs
+# ---------------------------------------------------------------------------------------------
+
+class _OptResult:
+    def __init__(self, x, success, fun=None, message='stub'):
+        self.x = x
+        self.success = success
+        self.fun = fun
+        self.message = message
+
+
+class OptimizeStub:
+    """Assumed contracts:
+    root(f, x0): success => f(x) = 0;  minimize(f, x0): success => x is a minimiser (nothing else);
+    minimize_scalar / least_squares: see callers.  Nothing is assumed when success is false.
+    Every call forks into success / failure and records its arguments."""
+
+    def __init__(self, outcomes=('ok', 'fail')):
+        self.calls = []
+        self.outcomes = outcomes
+
+    def _fork_ok(self, what):
+        eng = sx.cur()
+        if self.outcomes == ('ok',):
+            return True
+        return eng.branch(_z3.Bool(f"{what}_succeeds_{len(self.calls)}"), tag=f"{what}:success")
+
+    def root(self, fun, x0, **kw):
+        eng = sx.cur()
+        ok = self._fork_ok('root')
+        x = eng.fresh('root_x')
+        rec = {'kind': 'root', 'fun': fun, 'x0': x0, 'kw': kw, 'x': x, 'success': ok}
+        self.calls.append(rec)
+        if ok:
+            r = fun(x)
+            r = r.item() if hasattr(r, 'item') and getattr(r, 'ndim', 1) == 0 else r
+            if isinstance(r, _np.ndarray):
+                for v in r.flat:
+                    eng.assume(sx.eq(v, 0))
+            else:
+                eng.assume(sx.eq(r, 0))
+        return _OptResult(x, ok)
+
+    def minimize(self, fun, x0, **kw):
+        eng = sx.cur()
+        ok = self._fork_ok('minimize')
+        x = eng.fresh('min_x')
+        self.calls.append({'kind': 'minimize', 'fun': fun, 'x0': x0, 'kw': kw, 'x': x, 'success': ok})
+        return _OptResult(x, ok)
+
+
+class IntegrateStub:
+    """quad(f, a, b)[0] = integral of f over [a, b] (assumed); the call is recorded, the value is opaque."""
+
+    def __init__(self):
+        self.calls = []
+
+    def quad(self, f, a, b, **kw):
+        val = sx.cur().fresh('quad')
+        self.calls.append({'f': f, 'a': a, 'b': b, 'kw': kw, 'value': val})
+        return (val, 0.0)
